@@ -2,3 +2,4 @@ pub mod sx;
 pub mod pure;
 pub mod state;
 pub mod expr;
+pub mod column;
